@@ -671,9 +671,8 @@ def main(tier, seed, replay=None):
                     pops.append(load_case(os.path.join(cdir, fn)))
         pops.append(tagdelay_case())
         ncorpus = len(pops)
-        pops += gen_cases(rng, 60 if tier == "quick" else 4000, 35)
-    impl, model, note, go_s = execute(pops, exe, "main")
-    note = (build_note + " " + note).strip()
+    # thorough: 5 batches of 2400 populations (keeps memory flat); quick: one batch of 60
+    nbatches, per_batch = (1, 60) if tier == "quick" else (5, 2400)
     known, fixed = known_findings(PROP)
     known_ids = {k.get("id") for k in known}
     nviol, nknown, stats = 0, 0, {"searches": 0, "nonempty": 0, "paged": 0, "more": 0, "tie_drift": 0, "model_compared": 0,
@@ -681,50 +680,69 @@ def main(tier, seed, replay=None):
     failures, model_bad, seen_known = [], [], set()
     distinct = set()
     dist = {"files": {}, "limit": {}, "nkeys": {}, "tags": {}, "idrestricted": 0, "shadowed_pops": 0}
-    for pi, pop in enumerate(pops):
-        dist["files"][len(pop["files"])] = dist["files"].get(len(pop["files"]), 0) + 1
-        dist["tags"][len(pop["tags"])] = dist["tags"].get(len(pop["tags"]), 0) + 1
-        if sum(len(f) for f in pop["files"]) > len(visible_of(pop)):
-            dist["shadowed_pops"] += 1
-        for si, sr in enumerate(pop["searches"]):
-            stats["searches"] += 1
-            sp = spec(pop, pop["_truth"], sr)
-            res = impl.get((pi, si), {"status": "MISSING", "raw": "no output line for this search " + note[-300:]})
-            why = judge(pop, sr, sp, res)
-            dist["limit"][sr["limit"]] = dist["limit"].get(sr["limit"], 0) + 1
-            dist["nkeys"][len(sr["sort"])] = dist["nkeys"].get(len(sr["sort"]), 0) + 1
-            dist["idrestricted"] += sr["ids"] is not None
-            if sp["n"]:
-                stats["nonempty"] += 1
-                distinct.add((pi, sr["q"], repr(sr["sort"]), sr["limit"], sr["skip"], repr(sr["ids"])))
-            stats["paged"] += sr["skip"] > 0
-            stats["more"] += sp["more"]
-            m = model.get((pi, si))
-            if why:
-                stats["kinds"][why[0]] = stats["kinds"].get(why[0], 0) + 1
-                failures.append((pi, si, why))
-            elif m is not None:
-                stats["model_compared"] += 1
-                mwhy = judge(pop, sr, sp, model_as_result(pop, m["fixed"]))
-                # the hypotheses of the theorems, checked on what the real buildSearchObjects compiled:
-                # lookups list every stream the filters accept; OR over the parts = the query's meaning
-                vis = visible_of(pop)
-                sat = set(m["sat"])
-                want = {(s["file"], pop["files"][s["file"]].index({k: v for k, v in s.items() if k != "file"}))
-                        for s in vis.values() if eval_expr(sr["expr"], s, pop["_truth"])}
-                got = {(fi, si) for fi, si in sat if vis[pop["files"][fi][si]["id"]]["file"] == fi}
-                if not m["hyp"]:
-                    mwhy = ("hypothesis", "a lookup misses a stream index that the filters of the same part accept, or a sorted section of an index file is not a permutation ordered by its key")
-                elif want != got:
-                    mwhy = ("hypothesis", "compiled parts accept %s on the visible streams, the query denotes %s" % (sorted(got), sorted(want)))
-                if mwhy:
-                    model_bad.append((pi, si, mwhy))
-                elif not same_obs(res, m["fixed"]):
-                    stats["tie_drift"] += 1
-                if not same_obs(res, m["orig"]):
-                    stats["orig_model_differs"] += 1
-            elif exe and res["status"] == "OK":
-                model_bad.append((pi, si, ("missing", "the model driver printed nothing for this search")))
+    note, go_s, npops, last = build_note, 0.0, 0, None
+    impl, model = {}, {}
+    for batch in range(1 if replay else nbatches):
+        if not replay:
+            pops = (pops if batch == 0 else []) + gen_cases(rng, per_batch, 35)
+        impl, model, bnote, bgo = execute(pops, exe, "main")
+        note, go_s, npops = (note + " " + bnote).strip(), go_s + bgo, npops + len(pops)
+        for pi, pop in enumerate(pops):
+            dist["files"][len(pop["files"])] = dist["files"].get(len(pop["files"]), 0) + 1
+            dist["tags"][len(pop["tags"])] = dist["tags"].get(len(pop["tags"]), 0) + 1
+            if sum(len(f) for f in pop["files"]) > len(visible_of(pop)):
+                dist["shadowed_pops"] += 1
+            for si, sr in enumerate(pop["searches"]):
+                stats["searches"] += 1
+                sp = spec(pop, pop["_truth"], sr)
+                res = impl.get((pi, si), {"status": "MISSING", "raw": "no output line for this search " + note[-300:]})
+                why = judge(pop, sr, sp, res)
+                last = (sr, res)
+                dist["limit"][sr["limit"]] = dist["limit"].get(sr["limit"], 0) + 1
+                dist["nkeys"][len(sr["sort"])] = dist["nkeys"].get(len(sr["sort"]), 0) + 1
+                dist["idrestricted"] += sr["ids"] is not None
+                if sp["n"]:
+                    stats["nonempty"] += 1
+                    distinct.add(hash((batch, pi, sr["q"], repr(sr["sort"]), sr["limit"], sr["skip"], repr(sr["ids"]))))
+                stats["paged"] += sr["skip"] > 0
+                stats["more"] += sp["more"]
+                m = model.get((pi, si))
+                if why:
+                    stats["kinds"][why[0]] = stats["kinds"].get(why[0], 0) + 1
+                    slug = classify(pop, sr, why[0])
+                    if slug and slug in known_ids:
+                        if slug not in seen_known:
+                            print("KNOWN-FINDING: property=%s id=%s %s (%s)" % (PROP, slug, sr["q"], why[1][:120]), flush=True)
+                            seen_known.add(slug)
+                        nknown += 1
+                    elif len(failures) < 50:
+                        failures.append((pop, sr, why, m))
+                elif m is not None:
+                    stats["model_compared"] += 1
+                    mwhy = judge(pop, sr, sp, model_as_result(pop, m["fixed"]))
+                    # the hypotheses of the theorems, checked on what the real buildSearchObjects compiled:
+                    # lookups list every stream the filters accept; OR over the parts = the query's meaning
+                    vis = visible_of(pop)
+                    sat = set(m["sat"])
+                    want = {(s["file"], pop["files"][s["file"]].index({k: v for k, v in s.items() if k != "file"}))
+                            for s in vis.values() if eval_expr(sr["expr"], s, pop["_truth"])}
+                    got = {(fi, sj) for fi, sj in sat if vis[pop["files"][fi][sj]["id"]]["file"] == fi}
+                    if not m["hyp"]:
+                        mwhy = ("hypothesis", "a lookup misses a stream index that the filters of the same part accept, or a sorted section of an index file is not a permutation ordered by its key")
+                    elif want != got:
+                        mwhy = ("hypothesis", "compiled parts accept %s on the visible streams, the query denotes %s" % (sorted(got), sorted(want)))
+                    if mwhy:
+                        if len(model_bad) < 10:
+                            model_bad.append((pop, sr, mwhy, m, res))
+                    elif not same_obs(res, m["fixed"]):
+                        stats["tie_drift"] += 1
+                    if not same_obs(res, m["orig"]):
+                        stats["orig_model_differs"] += 1
+                elif exe and res["status"] == "OK":
+                    if len(model_bad) < 10:
+                        model_bad.append((pop, sr, ("missing", "the model driver printed nothing for this search"), None, res))
+        if failures or model_bad or note:
+            break
     if replay:
         pop, sr = pops[0], pops[0]["searches"][0]
         print("query:", sr["q"], "sort:", sr["sort"], "limit:", sr["limit"], "skip:", sr["skip"], "ids:", sr["ids"])
@@ -734,15 +752,7 @@ def main(tier, seed, replay=None):
         print("verdict:", failures[0][2] if failures else "ok")
     # ---- failures of the implementation against the property
     reported = set()
-    for pi, si, why in failures:
-        pop, sr = pops[pi], pops[pi]["searches"][si]
-        slug = classify(pop, sr, why[0])
-        if slug and slug in known_ids:
-            if slug not in seen_known:
-                print("KNOWN-FINDING: property=%s id=%s %s (%s)" % (PROP, slug, sr["q"], why[1][:120]), flush=True)
-                seen_known.add(slug)
-            nknown += 1
-            continue
+    for pop, sr, why, _m in failures:
         if why[0] in reported and len(reported) >= 1 and nviol >= 3:
             continue  # one replay per kind of failure, at most a few
         reported.add(why[0])
@@ -768,12 +778,12 @@ def main(tier, seed, replay=None):
         log("note: known finding tag-inline-reftime did not reproduce on this tree (fixed?)")
     # ---- the model / the proof / the harness
     if model_bad and nviol == 0:
-        pi, si, why = model_bad[0]
-        pop, sr = pops[pi], pops[pi]["searches"][si]
-        violation(PROP, {"property": PROP, "broken": "correspondence: the extracted model (theories/Search.v, patched variant) violates the oracle "
-                         "or is missing although the implementation agrees; theorems of props/C02.v no longer describe the code",
-                         "why": list(why), "pop": dict(public(pop), searches=[sr]), "model": model.get((pi, si)),
-                         "impl": impl.get((pi, si), {}).get("raw")}, no_input=True)
+        pop, sr, why, mm, rr = model_bad[0]
+        violation(PROP, {"property": PROP, "broken": "correspondence: the extracted model (theories/Search.v, patched variant) violates the oracle, "
+                         "a hypothesis of the theorems fails on what the real code compiled, or the model output is missing, although the "
+                         "implementation agrees with the oracle; theorems of props/C02.v no longer describe the code",
+                         "why": list(why), "pop": dict(public(pop), searches=[sr]), "model": mm,
+                         "impl": rr.get("raw")}, no_input=True)
         nviol += 1
     if note and nviol == 0:
         violation(PROP, {"property": PROP, "broken": "correspondence harness or model could not be built/run against this tree", "note": note}, no_input=True)
@@ -782,7 +792,7 @@ def main(tier, seed, replay=None):
         violation(PROP, {"property": PROP, "broken": proof.failure_text(), "searched": stats["searches"]}, no_input=True)
         nviol += 1
     cov = proof.coverage()
-    sample = pops[-1]["searches"][-1] if pops and pops[-1]["searches"] else {}
+    sample = last[0] if last else {}
     cov.update({
         "trusted_base": TRUSTED_COMMON + [
             "`matches` is a given predicate: query normalisation (C03) and payload filters (C04) are not modelled here; the model is fed with what the real buildSearchObjects compiled per (file, conjunct): possible / lookups / truth table of the filters",
@@ -798,17 +808,18 @@ def main(tier, seed, replay=None):
                 "non-trivial = non-empty expected page, distinct by (population, query, sort, limit, skip, ids); compared: impl = direct oracle "
                 "(key sequence, membership, no duplicates, visible version attributes, length, more flag); extracted model (patched variant) = oracle, "
                 "and id-by-id against the implementation (tie order differences counted as tie_drift, never an alarm)",
-        "stats": stats, "generator_distribution": dist, "corpus_cases": ncorpus, "go_seconds": round(go_s, 1),
+        "stats": stats, "generator_distribution": dist, "corpus_cases": ncorpus, "populations": npops, "go_seconds": round(go_s, 1),
         "known_findings_seen": sorted(seen_known), "known_failures": nknown,
         "samples": [{"q": sample.get("q"), "sort": sample.get("sort"), "limit": sample.get("limit"), "skip": sample.get("skip"),
-                     "impl": impl.get((len(pops) - 1, len(pops[-1]["searches"]) - 1), {}).get("raw") if pops else None}],
+                     "impl": last[1].get("raw") if last else None}],
         "disagreements": nviol, "fixed_findings": fixed,
     })
-    write_evidence(PROP, tier, seed, cov,
-                   ["every decided tag bit is correct (C06 establishes it); undecided bits arbitrary",
-                    "limit = 0 implies skip = 0 (the manager computes skip = page * limit)",
-                    "tag graph acyclic (C11)", "no grouping, sub-queries or data filters in the generated queries"],
-                   time.time() - t0, nviol)
+    if not replay:
+        write_evidence(PROP, tier, seed, cov,
+                       ["every decided tag bit is correct (C06 establishes it); undecided bits arbitrary",
+                        "limit = 0 implies skip = 0 (the manager computes skip = page * limit)",
+                        "tag graph acyclic (C11)", "no grouping, sub-queries or data filters in the generated queries"],
+                       time.time() - t0, nviol)
     if not nviol:  # keep the run files of a failing run for inspection
         shutil.rmtree(os.path.join(BUILD, "run", "c02", str(os.getpid())), ignore_errors=True)
         try:
